@@ -223,6 +223,20 @@ def gram_degree(prog: Program, res: Result) -> None:
         solvers = {id(c): c for c in ast.walk(fi.node) if isinstance(c, ast.Call) and (dotted(c.func) or "").split(".")[-1] in ("eigh", "eigsh", "eig", "eigs", "svd")}
         if not seen:
             res.undecided("EIG-gram", fi.short, f"the solver input is quadratic in self.{field}", prog.loc(fi), "no solver call reached")
+        rets, _ = dg.run(meths["nvecs"])
+        desc0 = f"the returned vectors are scale-free (degree 0 in self.{field}), as unit-norm eigenvectors are"
+        from functools import reduce
+        dr = reduce(D.join, [v for _, v in rets], "BOT") if rets else None
+        dr = None if dr == "BOT" else dr
+        if dr == Fraction(0):
+            res.ok("EIG-gram", fi.short, desc0, prog.loc(fi, rets[-1][0]))
+        elif dr is None:
+            res.undecided("EIG-gram", fi.short, desc0, prog.loc(fi), "an expression outside the degree table")
+        else:
+            bad_ret = next((r for r, v in rets if v not in (Fraction(0), D.POLY)), rets[-1][0])
+            res.bad("EIG-gram", fi.short, desc0, prog.loc(fi, bad_ret),
+                    f"the result has degree {D.fmt(dr)} in self.{field}: its columns change length when the tensor is rescaled, so they are not unit "
+                    "vectors (eigenvectors lifted through the unfolding have length sqrt(eigenvalue) and must be divided by exactly that)")
         for cid, d in seen.items():
             c = solvers.get(cid)
             solver = (dotted(c.func) or "").split(".")[-1] if c is not None else "?"
@@ -246,7 +260,7 @@ def check(prog: Program, res: Result, tier: str) -> None:
         "eigsh unspecified order, k vectors); eig/eigs are general solvers with complex results",
         "eigsh(which='LM', default) selects largest-magnitude eigenvalues",
     ]
-    res.floors = {"EIG-ret": 8, "EIG-sign": 4, "EIG-sib": 4, "EIG-unf": 1, "EIG-gram": 6}
+    res.floors = {"EIG-ret": 8, "EIG-sign": 4, "EIG-sib": 4, "EIG-unf": 1, "EIG-gram": 10}
     unfold_conventions(prog, res)
     gram_degree(prog, res)
     for short in NVECS:
